@@ -248,7 +248,11 @@ class World(object):
             raise StepBudgetExceeded('more than %d transport operations' % STEP_BUDGET)
 
     def current(self):
-        return self.scheduler.cur if self.scheduler is not None else None
+        if self.scheduler is not None:
+            return self.scheduler.cur
+        import threading
+        t = threading.current_thread()
+        return None if t is threading.main_thread() else t.name
 
     def yield_point(self, what):
         if self.scheduler is not None:
